@@ -14,7 +14,7 @@ import FtModel.Basic
 namespace Ft
 
 /-- a point `prefix ++ [coord]` as the intersectors slice it out of a row -/
-abbrev Pt := List Int
+abbrev c19_Pt := List Int
 
 /-- one row of a trace -/
 inductive TRow
@@ -27,24 +27,24 @@ def TRow.len : TRow → Nat
   | .data c => c.length
 
 /-- `row[n:2n]`; a header row in data position is outside the model -/
-def TRow.point (n : Nat) : TRow → Option Pt
+def TRow.point (n : Nat) : TRow → Option c19_Pt
   | .hdr _ => none
   | .data c => some ((c.drop n).take n)
 
 /-- Python's `<` on lists of ints (lexicographic) -/
-def lexLt : List Int → List Int → Bool
+def c19_lexLt : List Int → List Int → Bool
   | [], [] => false
   | [], _ :: _ => true
   | _ :: _, [] => false
-  | x :: xs, y :: ys => if x < y then true else if x = y then lexLt xs ys else false
+  | x :: xs, y :: ys => if x < y then true else if x = y then c19_lexLt xs ys else false
 
 /-- `point is None or fiber != point[:-1]` for the element after the finger -/
-def endOf (fiber : List Int) : List Pt → Bool
+def endOf (fiber : List Int) : List c19_Pt → Bool
   | [] => true
   | q :: _ => decide (fiber ≠ q.dropLast)
 
 /-- `fiber = point0[:-1] if point0 else None` -/
-def fiberOf : List Pt → Option (List Int)
+def fiberOf : List c19_Pt → Option (List Int)
   | [] => none
   | q :: _ => if q.isEmpty then none else some q.dropLast
 
@@ -55,13 +55,13 @@ The lists are the not yet consumed parts of the two traces, the heads are `point
 top of the loop (it is assigned from `point0` before the loop and at the end of every
 iteration), so it is a `let` here. -/
 
-def tfLoop : List Pt → List Pt → Nat
+def tfLoop : List c19_Pt → List c19_Pt → Nat
   | p0 :: r0, p1 :: r1 =>
     if p0.isEmpty || p1.isEmpty then 0            -- `while point0 and point1`
     else
       let fiber := p0.dropLast
       if p0 = p1 then 1 + tfLoop r0 r1
-      else if lexLt p0 p1 then
+      else if c19_lexLt p0 p1 then
         -- advance finger 0; at the end of the fiber also forward finger 1
         if endOf fiber r0 then 1 + tfLoop r0 r1 else 1 + tfLoop r0 (p1 :: r1)
       else
@@ -72,14 +72,14 @@ decreasing_by all_goals (simp only [List.length_cons]; omega)
 
 /-! ### SkipAheadIntersector.addTraces (`curr` ∈ {None, 0, 1}) -/
 
-def saLoop : Option Nat → List Pt → List Pt → Nat
+def saLoop : Option Nat → List c19_Pt → List c19_Pt → Nat
   | curr, p0 :: r0, p1 :: r1 =>
     if p0.isEmpty || p1.isEmpty then 0
     else
       let fiber := p0.dropLast
       if p0 = p1 then
         1 + saLoop none r0 r1
-      else if lexLt p0 p1 then
+      else if c19_lexLt p0 p1 then
         let inc := if curr ≠ some 0 then 1 else 0
         let r1' := if endOf fiber r0 then r1 else p1 :: r1
         -- `if fiber != old_fiber: curr = None`
@@ -105,7 +105,7 @@ structure IState where
 
 /-- first lines of both loops: the points, the `None` test and the assertion that both
     traces start in the same fiber.  `none` = the call raises. -/
-def startPts (n : Nat) (t0 t1 : List TRow) : Option (Option (List Pt × List Pt)) := do
+def startPts (n : Nat) (t0 t1 : List TRow) : Option (Option (List c19_Pt × List c19_Pt)) := do
   let q0 ← t0.mapM (TRow.point n)
   let q1 ← t1.mapM (TRow.point n)
   match q0, q1 with
@@ -277,10 +277,10 @@ def groupClean : List FiberIn → Bool
   | f :: g => clean f.a f.b && groupClean g
 
 /-- executable form of "strictly ascending" for presented coordinate lists -/
-def ascB : List Int → Bool
+def c19_ascB : List Int → Bool
   | [] => true
   | [_] => true
-  | x :: y :: r => decide (x < y) && ascB (y :: r)
+  | x :: y :: r => decide (x < y) && c19_ascB (y :: r)
 
 /-- executable pairwise distinctness of the outer-loop points of a group -/
 def distinctPre : List FiberIn → Bool
@@ -289,6 +289,6 @@ def distinctPre : List FiberIn → Bool
 
 /-- row shape: `n` loop ranks -/
 def FiberIn.shapeOk (n : Nat) (f : FiberIn) : Bool :=
-  decide (f.oi.length + 1 = n) && decide (f.pre.length + 1 = n) && ascB f.a && ascB f.b
+  decide (f.oi.length + 1 = n) && decide (f.pre.length + 1 = n) && c19_ascB f.a && c19_ascB f.b
 
 end Ft
